@@ -61,7 +61,7 @@ impl<'a> CertCase<'a> {
 }
 
 /// CA issuers used by the workload: one per pool key, with varied names and key-id methods
-pub fn make_issuers<'a>(pool: &'a [PoolKey], seed: u64) -> Vec<Issuer<'a>> {
+pub fn make_issuers<'a>(ctx: &Ctx, pool: &'a [PoolKey], seed: u64) -> Vec<Issuer<'a>> {
 	let mut out = Vec::new();
 	for (i, k) in pool.iter().enumerate() {
 		let mut rng = Rng::derive(seed, "issuer", i as u64);
@@ -78,8 +78,31 @@ pub fn make_issuers<'a>(pool: &'a [PoolKey], seed: u64) -> Vec<Issuer<'a>> {
 			_ => KidSpec::Pre(rng.bytes(20)),
 		};
 		spec.ku = if i % 3 == 0 { 0 } else { 0b0110_0001 }; // digitalSignature, keyCertSign, cRLSign
-		let cert = spec.to_rcgen(None).self_signed(&k.kp).expect("issuer certificate");
-		let view = x509::parse_certificate(cert.der()).expect("issuer certificate decodes");
+		// a well-formed issuer that cannot be generated is a finding of whatever property is being monitored
+		let made = crate::guard(|| spec.to_rcgen(None).self_signed(&k.kp).map_err(|e| e.to_string()));
+		let cert = match made {
+			Ok(Ok(c)) => c,
+			other => {
+				ctx.violation(
+					&format!("{}:issuer-setup", ctx.prop.to_lowercase()),
+					&CaseId::new("issuer", seed, i as u64),
+					&format!("key={} spec={:?}", k.label, spec),
+					&format!("generating a CA certificate from well-formed parameters failed: {:?}", other.map(|x| x.map(|_| ()))),
+				);
+				spec.subject = ParamSpec::minimal().subject;
+				match crate::guard(|| spec.to_rcgen(None).self_signed(&k.kp)) {
+					Ok(Ok(c)) => c,
+					_ => continue,
+				}
+			},
+		};
+		let view = match x509::parse_certificate(cert.der()) {
+			Ok(v) => v,
+			Err(e) => {
+				ctx.violation(&format!("{}:issuer-setup", ctx.prop.to_lowercase()), &CaseId::new("issuer", seed, i as u64), &format!("{:?}", spec), &e);
+				continue;
+			},
+		};
 		out.push(Issuer { spec, key: k, cert, view });
 	}
 	out
